@@ -45,7 +45,7 @@ theorem scan_reach (h : Host) (cfg : Cfg) (wf : HostWF h) (hx : InOut cfg cfg.ct
     (hs : scan h cfg fuel = .ok plan) :
     ∃ fuel' inc' st1 st2,
       walk h cfg fuel' (.host rel (cfg.ctrOut ++ rel) (limitFollowSymlinks + 1) inc') st1 = .ok st2 ∧
-      namei h [] (hostPath cfg (cfg.ctrOut ++ rel)) 0 = .found (cfg.hostOut ++ rel) node := by
+      namei h [] (hostPath cfg (cfg.ctrOut ++ rel)) 0 = .found (cfg.hostOut ++ rel) node ∧ st2.le plan := by
   cases fuel with
   | zero => simp [scan, walk] at hs
   | succ fuel =>
@@ -73,7 +73,7 @@ theorem special_fails (h : Host) (cfg : Cfg) (wf : HostWF h) (hx : InOut cfg cfg
     (rel : Path) (hne : rel ≠ []) (hv : Visible h cfg cfg.ctrOut cfg.hostOut rel .special)
     (fuel : Nat) (plan : Plan) : scan h cfg fuel ≠ .ok plan := by
   intro hs
-  obtain ⟨f', i', s1, s2, hcall, hnm⟩ := scan_reach h cfg wf hx hreal rel .special hne hv fuel plan hs
+  obtain ⟨f', i', s1, s2, hcall, hnm, _⟩ := scan_reach h cfg wf hx hreal rel .special hne hv fuel plan hs
   exact host_special_fails h cfg _ _ _ _ f' i' s1 s2 hnm hcall
 
 /-! ### links that leave every mount -/
@@ -117,7 +117,7 @@ theorem link_outside_fails (h : Host) (cfg : Cfg) (wf : HostWF h) (hx : InOut cf
     (hout : Outside cfg (linkTarget (cfg.ctrOut ++ rel) abs t))
     (fuel : Nat) (plan : Plan) : scan h cfg fuel ≠ .ok plan := by
   intro hs
-  obtain ⟨f', i', s1, s2, hcall, hnm⟩ := scan_reach h cfg wf hx hreal rel _ hne hv fuel plan hs
+  obtain ⟨f', i', s1, s2, hcall, hnm, _⟩ := scan_reach h cfg wf hx hreal rel _ hne hv fuel plan hs
   exact host_link_outside_fails h cfg _ _ _ _ f' i' s1 s2 abs t hnm hout hcall
 
 /-! ### cycles -/
@@ -142,7 +142,7 @@ theorem cycle_host_fails (h : Host) (cfg : Cfg) (wf : HostWF h) (x p rel : Path)
       · subst hr; simp only [if_true] at hnode
         exact ⟨fuel, dest, inc, st, st', p, by simpa using hw, by simpa using hnode⟩
       · simp only [hr, if_false] at hnode
-        obtain ⟨f', i', s1, s2, hc, hn⟩ := reach h cfg wf rel dest x p 0 fuel inc st st' hw hpre hnode.1
+        obtain ⟨f', i', s1, s2, hc, hn, _⟩ := reach h cfg wf rel dest x p 0 fuel inc st st' hw hpre hnode.1
           hnode.2.dirs hnode.2.vis _ hr hnode.2.node
         exact ⟨f', _, i', s1, s2, _, hc, hn⟩
     obtain ⟨f', d', i', s1, s2, p', hc, hn⟩ := hlink
@@ -162,7 +162,7 @@ theorem cycle_host_fails (h : Host) (cfg : Cfg) (wf : HostWF h) (x p rel : Path)
       · subst hr; simp only [if_true] at hnode
         exact ⟨fuel, dest, inc, st, st', p, by simpa using hw, by simpa using hnode⟩
       · simp only [hr, if_false] at hnode
-        obtain ⟨f', i', s1, s2, hc, hn⟩ := reach h cfg wf rel dest x p (n + 1) fuel inc st st' hw hpre hnode.1
+        obtain ⟨f', i', s1, s2, hc, hn, _⟩ := reach h cfg wf rel dest x p (n + 1) fuel inc st st' hw hpre hnode.1
           hnode.2.dirs hnode.2.vis _ hr hnode.2.node
         exact ⟨f', _, i', s1, s2, _, hc, hn⟩
     obtain ⟨f', d', i', s1, s2, p', hc, hn⟩ := hlink
@@ -218,7 +218,7 @@ theorem cycle_fails (h : Host) (cfg : Cfg) (wf : HostWF h) (hx : InOut cfg cfg.c
           refine ⟨fuel, [], true, {}, plan, .dir, by simpa using hs, ?_, by simp [hr]⟩
           have : namei h [] cfg.hostOut 0 = .found cfg.hostOut .dir := hreal
           simpa [hostPath_out] using this
-      · obtain ⟨f', i', s1, s2, hc, hn⟩ := scan_reach h cfg wf hx hreal rel0 _ hr0 h0 fuel plan hs
+      · obtain ⟨f', i', s1, s2, hc, hn, _⟩ := scan_reach h cfg wf hx hreal rel0 _ hr0 h0 fuel plan hs
         exact ⟨f', _, i', s1, s2, _, hc, hn, rfl⟩
   obtain ⟨f', d', i', s1, s2, nd, hc, hn, hnd⟩ := hbase
   refine cycle_host_fails h cfg wf (cfg.ctrOut ++ rel0) (cfg.hostOut ++ rel0) rel abs t hxin hpre ?_ hback
